@@ -51,7 +51,7 @@ theorem isProperPrefixOfKey_of_incomparable {T : Table} {p : Bytes} (h : incompa
   simp only [Bool.and_eq_true, Bool.not_eq_true', isPrefix_eq_false_iff] at this
   exact this.2 ((List.prefix_append p rest).trans hpre)
 
-/-- a well-formed table has no key that is a prefix of a buffer starting with a printable,
+/-- a well-formed table has no key that is a prefix of a buffer starting with a printableScalar,
 non-space, non-DEL byte -/
 theorem noKeyPrefix_of_wf {T : Table} (hT : WFTable T) {c : Nat} {tl : Bytes} (h1 : 32 < c) (h2 : c ≠ 127) :
     NoKeyPrefix T (c :: tl) := by
@@ -114,9 +114,9 @@ theorem unknownCSILen_csi (params inter : Bytes) (final : Nat) (rest : Bytes)
 
 /-! ### rune runs -/
 
-theorem encodeRune_head {r : Nat} (h : printable r = true) :
+theorem encodeRune_head {r : Nat} (h : printableScalar r = true) :
     ∃ c tl, encodeRune r = c :: tl ∧ 32 < c ∧ c ≠ 127 := by
-  simp only [printable, validScalar, Bool.and_eq_true, Bool.or_eq_true, decide_eq_true_eq, bne_iff_ne, ne_eq] at h
+  simp only [printableScalar, validScalar, Bool.and_eq_true, Bool.or_eq_true, decide_eq_true_eq, bne_iff_ne, ne_eq] at h
   obtain ⟨⟨⟨h1, h2⟩, h3⟩, h4⟩ := h
   unfold encodeRune
   split
@@ -133,7 +133,7 @@ theorem encodeRunes_cons (r : Nat) (rs : List Nat) : encodeRunes (r :: rs) = enc
   simp [encodeRunes]
 
 theorem runeLoop_run (rest : Bytes) (hstop : stopsRun rest = true) : ∀ (rs : List Nat),
-    (∀ r ∈ rs, printable r = true) → ∀ (pre : Bytes) (acc : List Nat) (fuel : Nat),
+    (∀ r ∈ rs, printableScalar r = true) → ∀ (pre : Bytes) (acc : List Nat) (fuel : Nat),
     (encodeRunes rs).length < fuel →
     runeLoop false false fuel (pre ++ encodeRunes rs ++ rest) pre.length acc =
       (pre.length + (encodeRunes rs).length, acc.reverse ++ rs, false) := by
@@ -159,11 +159,11 @@ theorem runeLoop_run (rest : Bytes) (hstop : stopsRun rest = true) : ∀ (rs : L
       · rfl
   | cons r rs ih =>
     intro hrs pre acc fuel hfuel
-    have hr : printable r = true := hrs r (by simp)
-    have hrs' : ∀ r' ∈ rs, printable r' = true := fun r' h' => hrs r' (by simp [h'])
+    have hr : printableScalar r = true := hrs r (by simp)
+    have hrs' : ∀ r' ∈ rs, printableScalar r' = true := fun r' h' => hrs r' (by simp [h'])
     obtain ⟨c, tl, henc, _, _⟩ := encodeRune_head hr
     have hpr := hr
-    simp only [printable, Bool.and_eq_true, decide_eq_true_eq, bne_iff_ne, ne_eq] at hpr
+    simp only [printableScalar, Bool.and_eq_true, decide_eq_true_eq, bne_iff_ne, ne_eq] at hpr
     obtain ⟨⟨⟨hv, h32⟩, h127⟩, herr⟩ := hpr
     cases fuel with
     | zero => simp at hfuel
@@ -189,10 +189,10 @@ theorem runeLoop_run (rest : Bytes) (hstop : stopsRun rest = true) : ∀ (rs : L
       simp [Nat.add_assoc]
 
 theorem detectTail_runes (r : Nat) (rs : List Nat) (rest : Bytes)
-    (hrs : ∀ x ∈ r :: rs, printable x = true) (hstop : stopsRun rest = true) :
+    (hrs : ∀ x ∈ r :: rs, printableScalar x = true) (hstop : stopsRun rest = true) :
     detectTail (encodeRunes (r :: rs) ++ rest) false =
       .ok ((encodeRunes (r :: rs)).length, some (.key { type := keyRunes, runes := r :: rs, alt := false })) := by
-  have hr : printable r = true := hrs r (by simp)
+  have hr : printableScalar r = true := hrs r (by simp)
   obtain ⟨c, tl, henc, hc32, hc127⟩ := encodeRune_head hr
   have hrl := runeLoop_run rest hstop (r :: rs) hrs [] [] ((encodeRunes (r :: rs) ++ rest).length + 1)
     (by simp only [List.length_append]; omega)
@@ -201,7 +201,7 @@ theorem detectTail_runes (r : Nat) (rs : List Nat) (rest : Bytes)
     rw [encodeRunes_cons, henc]; simp
   have hc27 : (c == 0x1b) = false := by simp; omega
   have hne32 : (r == 32) = false := by
-    simp only [printable, Bool.and_eq_true, decide_eq_true_eq] at hr
+    simp only [printableScalar, Bool.and_eq_true, decide_eq_true_eq] at hr
     simp; omega
   unfold detectTail
   have hidx : idx (encodeRunes (r :: rs) ++ rest) 0 = .ok c := by rw [hb]; simp [idx]
